@@ -239,6 +239,12 @@ def run_level(ctx, replay, module, invs, flavour="mix", trace=False, prefix="tra
                 runs.append(run)
                 run = []
         ctx.cov["samples"] += runs[1:3]
+    notbuilt = sum(1 for cr in recs for vr in cr["variants"] if vr["gen_exit"] == 0 and not vr["build_ok"])
+    ctx.cov["generated_but_not_built"] = notbuilt
+    if notbuilt and not ctx.violations and not replay:
+        # a parser that was generated without an error but does not build or load could not be observed: no verdict
+        # from it (that it does not build is C16's finding)
+        raise Inconclusive("%d generated parsers did not build or load (see C16): nothing was observed from them" % notbuilt)
     if unconfirmed and not ctx.violations:
         raise Inconclusive("%d discrepancies were not reproduced in fresh processes" % unconfirmed)
     return out, recs, st
